@@ -1,8 +1,116 @@
-(** C10 -- flattening an N-D array back to 2D inverts the N-D reshape. (theorems under construction) *)
+(** C10 -- flattening an N-D array back to 2D inverts the N-D reshape. *)
 From Coq Require Import List Arith Lia Bool.
-Require Import V.Base.ListAux V.Base.Radix V.Base.Matrix V.Base.NdArray V.Usid.SortOrder V.Usid.ToND V.Usid.FromND.
+Require Import V.Base.ListAux V.Base.CorrAux V.Base.Radix V.Base.Matrix V.Base.NdArray V.Usid.SortOrder V.Usid.ToND V.Usid.ToNDProof V.Usid.FromND
+               V.Usid.Grid V.Usid.FromNDProof V.Usid.GridRoundTrip V.Usid.GridFromNd.
 Import ListNotations.
 
+(** Headline.  For ANY number of position / spectroscopic dimensions, ANY sizes >= 1, ANY storage order on either side, ANY
+    element type and contents (not more dimensions than points on a side): flattening the N-D form produced by
+    reshape_to_n_dims with the same two index matrices returns the original 2-D data, rows x columns, in the same order. *)
+Theorem C10_round_trip_on_grids :
+  forall (A : Type) (dflt : A) (szp orderp szs orders : list nat) (main : list (list A)) (pos : list (list nat)),
+    wf_grid szp orderp -> wf_grid szs orders ->
+    length szp <= prod (radices szp orderp) -> length szs <= prod (radices szs orders) ->
+    0 < length szp -> 0 < length szs ->
+    length main = prod (radices szp orderp) -> rect main (prod (radices szs orders)) ->
+    transpose2d 0 pos = grid_spec szp orderp -> ncols pos = length szp ->
+    let spec := grid_spec szs orders in
+    forall a labels, to_nd dflt main pos spec false = Ok (a, labels) ->
+      from_nd dflt a (Some pos) (Some spec) = Ok (prod (radices szp orderp), prod (radices szs orders), concat main).
+Proof. intros. eapply grid_round_trip; eassumption. Qed.
+Print Assumptions C10_round_trip_on_grids.
+
+(** The same relative to the sort orders the code computes, for arbitrary matrices consistent with them. *)
+Theorem C10_round_trip_relative_to_computed_order :
+  forall (A : Type) (d : A) (main : list (list A)) (pos spec : list (list nat)),
+    let N := length main in let M := ncols main in let kp := ncols pos in let ks := length spec in
+    let so_p := get_sort_order (transpose2d 0 pos) in let so_s := get_sort_order spec in
+    let dims_p := get_dimensionality (transpose2d 0 pos) so_p in let dims_s := get_dimensionality spec so_s in
+    rect main M -> perm_of so_p kp -> perm_of so_s ks -> prod dims_p = N -> prod dims_s = M ->
+    Forall (fun r => 0 < r) dims_p -> Forall (fun r => 0 < r) dims_s ->
+    length pos = N -> ncols spec = M -> length (orient (transpose2d 0 pos)) = kp -> length (orient spec) = ks ->
+    0 < kp -> 0 < ks ->
+    forall a labels, to_nd d main pos spec false = Ok (a, labels) -> from_nd d a (Some pos) (Some spec) = Ok (N, M, concat main).
+Proof. intros. eapply from_nd_inverts_to_nd; eassumption. Qed.
+Print Assumptions C10_round_trip_relative_to_computed_order.
+
+(** The algebraic heart: transposing by the inverse of a permutation and then by the permutation is the identity. *)
+Theorem C10_transpose_round_trip :
+  forall (A : Type) (d : A) (a0 : nd A) (L : list nat) (k : nat),
+  perm_of L k -> length (nd_shape a0) = k -> Forall (fun s => 0 < s) (nd_shape a0) -> length (nd_data a0) = prod (nd_shape a0) ->
+  nd_transpose d (nd_transpose d a0 (inv_perm L)) L = a0.
+Proof. exact @nd_transpose_roundtrip. Qed.
+Print Assumptions C10_transpose_round_trip.
+
+(** Incompatible requests are refused: no matrix at all; a total size that does not match; with one axis per dimension,
+    an N-D shape that differs from the sizes the matrices show (e.g. permuted axes). *)
 Theorem C10_no_matrix_is_rejected : forall (A : Type) (d : A) (a : nd A), from_nd d a None None = Err ValueE.
 Proof. reflexivity. Qed.
 Print Assumptions C10_no_matrix_is_rejected.
+
+Theorem C10_size_mismatch_rejected :
+  forall (A : Type) (d : A) (a : nd A) (p s : list (list nat)),
+  2 <= length (nd_shape a) -> length p * ncols s <> prod (nd_shape a) -> from_nd d a (Some p) (Some s) = Err ValueE.
+Proof.
+  intros A d a p s H2 Hne. unfold from_nd.
+  assert (E : Nat.ltb (length (nd_shape a)) 2 = false) by (apply Nat.ltb_ge; exact H2). rewrite E.
+  assert (E2 : Nat.eqb (length p * ncols s) (prod (nd_shape a)) = false) by (now apply Nat.eqb_neq). rewrite E2. reflexivity.
+Qed.
+Print Assumptions C10_size_mismatch_rejected.
+
+Theorem C10_permuted_shape_rejected :
+  forall (A : Type) (d : A) (a : nd A) (p s : list (list nat)),
+  2 <= length (nd_shape a) -> ncols p + length s = length (nd_shape a) ->
+  nd_shape a <> get_dimensionality (transpose2d 0 p) (seq 0 (length (orient (transpose2d 0 p)))) ++
+                get_dimensionality s (seq 0 (length (orient s))) ->
+  from_nd d a (Some p) (Some s) = Err ValueE.
+Proof.
+  intros A d a p s H2 Hk Hne. unfold from_nd.
+  assert (E : Nat.ltb (length (nd_shape a)) 2 = false) by (apply Nat.ltb_ge; exact H2). rewrite E.
+  destruct (Nat.eqb (length p * ncols s) (prod (nd_shape a))); [|reflexivity]. cbn [negb].
+  rewrite Hk, Nat.eqb_refl. cbn [negb].
+  match goal with |- context [list_eqb Nat.eqb ?x ?y] => destruct (list_eqb Nat.eqb x y) eqn:El end; [|reflexivity].
+  exfalso. apply Hne. apply (list_eqb_eq Nat.eqb); [apply Nat.eqb_eq|exact El].
+Qed.
+Print Assumptions C10_permuted_shape_rejected.
+
+(** Coordinate map of the flattening, for ANY N-D array of the right shape (not only one produced by reshape_to_n_dims):
+    element (r, c) of the 2-D result is the element of the array at the coordinates carried by row r of the position
+    matrix and column c of the spectroscopic matrix. *)
+Theorem C10_flatten_coordinate_map :
+  forall (A : Type) (dflt : A) (szp orderp szs orders : list nat) (pos : list (list nat)) (b : nd A),
+    wf_grid szp orderp -> wf_grid szs orders ->
+    length szp <= prod (radices szp orderp) -> length szs <= prod (radices szs orders) ->
+    0 < length szp -> 0 < length szs ->
+    transpose2d 0 pos = grid_spec szp orderp -> ncols pos = length szp ->
+    nd_shape b = szp ++ szs -> length (nd_data b) = prod (nd_shape b) ->
+    let spec := grid_spec szs orders in
+    let N := prod (radices szp orderp) in let M := prod (radices szs orders) in
+    exists data, from_nd dflt b (Some pos) (Some spec) = Ok (N, M, data) /\ length data = N * M /\
+      forall r c, r < N -> c < M ->
+        nth (r * M + c) data dflt = nd_get dflt b (pos_row pos (length szp) r ++ spec_col spec (length szs) c).
+Proof. intros. eapply grid_from_nd; eassumption. Qed.
+Print Assumptions C10_flatten_coordinate_map.
+
+(** ... and the other direction of the inverse: reshaping the flattened matrix to N-D form gives the array back. *)
+Theorem C10_to_nd_inverts_from_nd :
+  forall (A : Type) (dflt : A) (szp orderp szs orders : list nat) (pos : list (list nat)) (b : nd A),
+    wf_grid szp orderp -> wf_grid szs orders ->
+    length szp <= prod (radices szp orderp) -> length szs <= prod (radices szs orders) ->
+    0 < length szp -> 0 < length szs ->
+    transpose2d 0 pos = grid_spec szp orderp -> ncols pos = length szp ->
+    nd_shape b = szp ++ szs -> length (nd_data b) = prod (nd_shape b) ->
+    let spec := grid_spec szs orders in
+    let N := prod (radices szp orderp) in let M := prod (radices szs orders) in
+    forall data, from_nd dflt b (Some pos) (Some spec) = Ok (N, M, data) ->
+    exists main labels, concat main = data /\ length main = N /\ rect main M /\ to_nd dflt main pos spec false = Ok (b, labels).
+Proof. intros. eapply grid_to_from_id; eassumption. Qed.
+Print Assumptions C10_to_nd_inverts_from_nd.
+
+Example C10_example :
+  let main := [[1; 2]; [3; 4]; [5; 6]; [7; 8]; [9; 10]; [11; 12]] in
+  let pos := [[0; 0]; [0; 1]; [0; 2]; [1; 0]; [1; 1]; [1; 2]] in       (* second dimension fastest *)
+  let spec := [[0; 1]] in
+  exists a, to_nd 0 main pos spec false = Ok (a, [0; 1; 2]) /\ nd_shape a = [2; 3; 2] /\
+            from_nd 0 a (Some pos) (Some spec) = Ok (6, 2, concat main).
+Proof. cbv zeta. eexists. split; [vm_compute; reflexivity|]. split; vm_compute; reflexivity. Qed.
